@@ -70,6 +70,52 @@ def windowSpec (n : Nat) (rows : List Row) (res : List (List Val × Nat × List 
       (sortLines (want.map fun c => c.map toString)) == (sortLines (got.map fun c => c.map toString))
     if ok then "ok" else "fail:tuple-results-differ-from-chunks"
 
+/-- consecutive chunks of `n` rows (the last one may be shorter: the harness flushes it with sentinel rows) -/
+def chunksFuel {α : Type} (n : Nat) : Nat → List α → List (List α)
+  | 0, _ => []
+  | f + 1, l => if l.isEmpty then [] else l.take n :: chunksFuel n f (l.drop n)
+
+def chunksOf {α : Type} (n : Nat) (l : List α) : List (List α) :=
+  if n == 0 then [l] else chunksFuel n l.length l
+
+/-- model of SQL + CountingWindow(N) with dotted GROUP BY columns: a bare dotted column gives the window no key part (NULL;
+existing tests pin that, C09's recorded finding), a function key keeps its value; batches per masked key, each through the
+aggregator.  The harness ends with N sentinel rows: they complete the last batch only when they share its window key, i.e.
+when no key is a function key. -/
+def dcntBatches (n : Nat) (fns : List String) (rows : List Row) : List (List Row) :=
+  let mask (t : List Val) : List Val := (t.zip fns).map fun p => if p.2 == "-" then Val.null else p.1
+  let ops := rows.map fun r => Counting.Op.row (encCounting (mask r.1)) r
+  let sent : List (Counting.Op (List Char) Row) :=
+    if fns.all (· == "-") then (List.range n).map fun (i : Nat) => Counting.Op.row (encCounting (fns.map fun _ => Val.null)) (([] : List Val), -(Int.ofNat i + 1))
+    else []
+  let ems := Counting.run n [] (ops ++ sent)
+  (ems.map fun e => e.2.filter (fun r => decide (0 ≤ r.2))).filter (fun b => !b.isEmpty)
+
+def dcntLines (n : Nat) (fns : List String) (rows : List Row) : List (List String) :=
+  (dcntBatches n fns rows).flatMap fun ch => ["b"] :: sortLines ((aggResults ch).map resultLine)
+
+/-- split the implementation's lines at the `b` markers -/
+def splitBatches (ls : List (List String)) : List (List (List String)) :=
+  ls.foldl (fun acc l => if l == ["b"] then acc ++ [[]] else
+    match acc.reverse with
+    | [] => [[l]]
+    | last :: rest => rest.reverse ++ [last ++ [l]]) []
+
+/-- C04 on batches whose composition is not the property's business: inside every batch the result rows are the partition
+of the batch's rows by tuple; no row is reported twice or lost -/
+def dottedSpec (rows : List Row) (ls : List (List String)) : String :=
+  match (splitBatches ls).mapM (fun b => b.mapM parseResult) with
+  | none => "fail:unreadable-result"
+  | some batches =>
+    let nrows := normRows rows
+    let allIds := batches.flatMap fun b => b.flatMap fun r => r.2.2
+    if !(batches.all fun b => b.all fun r => r.2.1 == r.2.2.length) then "fail:count-differs-from-members"
+    else if !(allIds.eraseDups.length == allIds.length) then "fail:row-in-two-results"
+    else if !(batches.all fun b =>
+        let ids := b.flatMap fun r => r.2.2
+        GroupBy.partitionHolds (nrows.filter fun x => ids.contains x.2) (b.map fun r => (r.1, r.2.2))) then "fail:not-the-partition-by-tuple"
+    else "ok"
+
 def run (c : Case) : CaseOut := Id.run do
   let mode := cfgGet c "mode" "enc"
   let n := (cfgGet c "n" "1").toNat?.getD 1
@@ -91,6 +137,11 @@ def run (c : Case) : CaseOut := Id.run do
       | some t, some i => rows := rows ++ [(t, i)]; obs := obs ++ [[]]
       | _, _ => obs := obs ++ [[["bad-op"]]]
     | ["results"] =>
+      if mode == "dcnt" then
+        obs := obs ++ [dcntLines n ((c.cfg.find? fun l => l.head? == some "fns").map (·.drop 1) |>.getD []) rows]
+        let v := dottedSpec rows implObs
+        if v != "ok" then spec := v
+        continue
       let res := match mode with
         | "agg" => aggResults rows
         | "ses" => sesResults rows
